@@ -588,7 +588,7 @@ func init() {
 				c.NonTrivial(k.Hash())
 			}
 		}})
-		us = append(us, coldUnit("security.Count", "count-alloc"))
+		us = append(us, coldUnits(tier, "security.Count", "count-alloc")...)
 		for u := 0; u < 8; u++ {
 			us = append(us, core.Unit{Name: fmt.Sprintf("copies-%02d", u), Weight: 8, Run: func(c *core.Ctx) {
 				for i := 0; i < c.Pick(300, 10000); i++ {
